@@ -258,6 +258,48 @@ func corpus() []*History {
 			opEB(5*sec))
 	}
 
+	// W16 (positive): the owning module changes the response threshold of its context between batches. Two
+	// providers, 127 permanently priced above the cap, so exactly one is eligible. Threshold 1: batch 1 is issued.
+	// Threshold -> 2: batch 2 is SKIPPED (1 eligible < 2) and completes at its expiry with ([], error) judged by the
+	// threshold 2 recorded at its start, although the module has lowered the threshold to 1 again by then; batch 3 is
+	// issued with per-batch threshold 1 and its single answer satisfies it. Refused: a threshold above the number of
+	// providers (given, or kept when none are given), a consumer that is not the context's. Then pause / start /
+	// kill through the keeper API, which the message handlers refuse for a module context.
+	{
+		modUpd := func(who int64, thr int64, provs ...int64) Op {
+			return Op{Kind: "modupd", Tx: 4001, Who: who, Thr: thr, Provs: provs, Dep: CoinsArg{Kind: "E"}}
+		}
+		add("W16-module-threshold-update", 0, append(rich(101), [2]int64{111, 1000}),
+			opDefine(1, 101),
+			opBind(1, 126, 101, base(20000), price("10"), 1),
+			opBind(1, 127, 101, base(400000), price("2000"), 1),
+			opModCall(4001, 1, []int64{126, 127}, 111, 1000, 1, true, 1, -1, 1),
+			opEB(5*sec), // H=10: batch 1 to 126 only, per-batch threshold 1
+			opRespond(4001, 1, 10, 0, 126, 200, 1, true), // callback ([1], no error)
+			modUpd(112, 2),      // refused: not the consumer of the context
+			modUpd(111, 3),      // refused: 3 > 2 providers
+			modUpd(111, 0, 126), // accepted: the kept threshold 1 <= 1 provider given; providers := [126]
+			modUpd(111, 2, 126), // refused: 2 > 1 provider given
+			modUpd(111, 2, 126, 127), // accepted: threshold 2, providers [126 127]; the per-batch threshold stays 1
+			opCtx("pause", 4001, 111), // refused: a message cannot drive a module context
+			opEB(5*sec), // H=11: batch 2 SKIPPED (1 eligible < 2), per-batch threshold 2
+			modUpd(111, 0, 126), // refused: the kept threshold 2 > 1 provider given
+			modUpd(111, 1),      // accepted: threshold 1; batch 2 keeps its threshold 2
+			opEB(5*sec), // H=12: batch 2 expires: callback ([], error); batch 3 issued with per-batch threshold 1
+			opRespond(4001, 3, 12, 0, 126, 200, 2, true), // callback ([2], no error)
+			opCtx("modpause", 4001, 112), // refused: not the consumer
+			opCtx("modpause", 4001, 111),
+			opCtx("modpause", 4001, 111), // refused: not running
+			opEB(5*sec), // H=13: batch 3 (answered) expires; paused: nothing queued
+			opCtx("modstart", 4001, 111), // running again, new batch due at once
+			opCtx("modstart", 4001, 111), // refused: not paused
+			opEB(5*sec), // H=14: batch 4 issued
+			opCtx("modkill", 4001, 111),
+			modUpd(111, 1), // refused: completed
+			opEB(5*sec),    // H=15: batch 4 times out (slash, refund), callback ([], error); context removed
+			opEB(5*sec))
+	}
+
 	hs = append(hs, corpusC17()...)
 	return hs
 }
